@@ -79,7 +79,9 @@ class Gen:
 
     def skip_stmt(self):
         self.fresh += 1
-        return ("s", self.r.choice([";", "return;", f"return {self.var()};", f"int t{self.fresh};", "assert(1);", "break;" if False else ";"]))
+        # declarations: usually a fresh name; sometimes one used before (another block) or the name of a parameter (shadowing)
+        decl = self.r.choice([f"int t{self.fresh};", f"int t{self.fresh};", "int t0;", f"int {self.var()};"])
+        return ("s", self.r.choice([";", "return;", f"return {self.var()};", decl, "assert(1);", ";"]))
 
     def cond(self):
         a, b = self.var(), self.operand(False)
@@ -135,7 +137,25 @@ class Gen:
             guard = self.var()            # may occur in the body: then not an mwp loop
         decl = self.r.random() < 0.3
         init = f"int {it} = 0" if decl else f"{it} = 0"
-        return ("for", init, f"{it} < {guard}", f"{it}++", self.body(depth), it, guard, decl)
+        body = self.body(depth)
+        others = [v for v in self.vars if v != guard]
+        if guard in self.vars and others and self.r.random() < 0.5:
+            # the guard occurs in the body ONLY inside a brace-less branch / an else-if ladder (the places a variable scan can overlook)
+            o1, o2 = self.r.choice(others), self.r.choice(others)
+            use = ("s", self.r.choice([f"{o1} = {o1} + {guard};", f"{guard} = {guard} + {o1};", f"{o1} = {guard};", f"{guard} = {o2};"]))
+            plain = ("s", f"{o1} = {o2};")
+            c1, c2 = f"{o1} > {o2}", f"{o2} > 0"
+            shape = self.r.randrange(4)
+            if shape == 0:
+                iff = ("if", c1, use, None)
+            elif shape == 1:
+                iff = ("if", c1, plain, use)
+            elif shape == 2:
+                iff = ("if", c1, plain, ("if", c2, plain, use))
+            else:
+                iff = ("if", c1, ("block", [plain]), ("if", c2, use, None))
+            body = ("block", [plain, iff] if self.r.random() < 0.5 else [iff])
+        return ("for", init, f"{it} < {guard}", f"{it}++", body, it, guard, decl)
 
     def chain_loop(self):
         """a loop whose body closes a dependency chain / rotation of the variables, backwards or forwards, mixing copies,
